@@ -41,7 +41,7 @@ CLAIMS = {
                  "network.py are called with the dtype/rank they declare; virtual "
                  "self-calls of inherited Network methods are accepted by every "
                  "override. Needs e.g. a degree>=4 non-clique neighbourhood to show "
-                 "in a test; holds for all graphs once shown on the source."),
+                 "in a test; holds for all graphs once shown on the source. Also: pair-count normalisers keep both factors in the denominator (no `x / N * (N - 1)`)."),
         "note": ("Does NOT decide that any measure equals its definition "
                  "(igraph/scipy/spectral measures are out of reach)."),
         "technique": "loop-nest guard-set extraction over the Cython parse tree, kernel-boundary type inference, override-signature check",
@@ -53,7 +53,7 @@ CLAIMS = {
                  "the attribute names written by save and read by the loaders, "
                  "definite assignment of constructor activations under the "
                  "loaders' call-site constants, one edge enumeration for link "
-                 "count and graph, mirrored stores for undirected link attributes."),
+                 "count and graph, mirrored stores for undirected link attributes. Also a freshness typestate: the vertex attribute carrying node weights into a file is attached by save() or re-attached by every graph rebuild."),
         "note": ("Does NOT decide what igraph preserves per file format, "
                  "degenerate edge lists or numeric equality of weights."),
         "technique": "who-may-write, def-use and definite-assignment analysis over Python ast effect trees",
@@ -80,7 +80,7 @@ CLAIMS = {
                  "copy after every public rewrite of the matrix (must-pass-through); "
                  "all thresholding siblings use one relation and exclude missing "
                  "states as rows and columns; N stored next to a matrix is its "
-                 "size; the adaptive kernel links a state to its own neighbours."),
+                 "size; the adaptive kernel links a state to its own neighbours. Also: library calls in kernels respect argument types (T6), block assemblies are sized by the series the plots were built from (T7), distance kernels keep intermediates at input precision (T8), the adjacency handed to Network.__init__ is a cleared copy also through helper methods."),
         "note": "Does NOT decide distance kernels, quantiles, neighbourhood sizes or NaN semantics of values.",
         "technique": "kernel-boundary type inference, must-pass-through over effect trees, sibling agreement",
     },
@@ -90,7 +90,7 @@ CLAIMS = {
                  "colour), the Python methods call the wrapper matching the branch "
                  "condition, the cache key covers the dispatch flags, per-row scan "
                  "flags are reset unconditionally, derived RQA measures read the "
-                 "histograms only and never edit them in place."),
+                 "histograms only and never edit them in place. Also: the three histograms consult the same mode flags (L7), _line_dist addresses samples only by sample indices (L8), the sequential mode compares at the precision of the matrix mode (L9)."),
         "note": "Does NOT verify the run-length algorithm itself or the measure formulas.",
         "technique": "table agreement over the Cython parse tree and path conditions over Python ast",
     },
@@ -116,7 +116,7 @@ CLAIMS = {
                  "siblings count under the same link tests over the same role "
                  "domains; role-suffixed locals are computed from the matching node "
                  "list; sub-block helpers return copies; edge-loop fills mirror "
-                 "independently; virtual calls survive the coupled overrides."),
+                 "independently; virtual calls survive the coupled overrides. Also: tested links have the same orientation in compiled and sparse siblings, and results built through igraph's order-normalising subgraph() are mapped back to the caller's node order (X7)."),
         "note": "Does NOT decide equality with sub-block definitions or limits.",
         "technique": "sibling guard-set agreement (Cython vs Python loop IR), role dataflow, override-signature check",
     },
@@ -136,7 +136,7 @@ CLAIMS = {
                  "set_window with coinciding bounds; ClimateData's setters rewrite "
                  "the view and bump the cache counter; the axis masks are closed "
                  "intervals of one sibling form; memoised anomalies are never "
-                 "edited in place."),
+                 "edited in place. Also: phase_mean() and anomaly() select a phase with the same selector (D5); a remembered last window is a copy (D6)."),
         "note": "Does NOT decide the selected indices or the anomaly arithmetic.",
         "technique": "who-may-read, funnel and sibling-form rules over Python ast",
     },
@@ -146,7 +146,7 @@ CLAIMS = {
                  "exactly by the missing-value conjunct and guard; every kernel "
                  "links iff the scan reaches j and stores symmetrically; retarded "
                  "and advanced degree sum complementary slices; the clustering "
-                 "kernels count complete triangles over past/future pairs."),
+                 "kernels count complete triangles over past/future pairs. Also: both relation builders consult the missing-value switch (V4); the row partition may be spelled with slices or tril/triu."),
         "note": ("Does NOT decide the geometric criterion on values; a rewritten "
                  "kernel outside the analysed scan shape yields ANALYSIS-ERROR, not a verdict."),
         "technique": "sibling kernel agreement over the Cython parse tree",
@@ -156,7 +156,7 @@ CLAIMS = {
                  "conditionally recomputed memos are refreshed by every writer of "
                  "their sources (repeated generation does not degrade); the "
                  "twin-surrogate kernels are applicable; per-series work buffers "
-                 "are re-initialised for every series."),
+                 "are re-initialised for every series. Also: the twin machinery compares distances with a threshold of at least their precision (U5)."),
         "note": "Does NOT decide permutation exactness, spectra or the twin transition structure.",
         "technique": "alias/mutation analysis, kernel-boundary typing, loop-carried work-array rule",
     },
@@ -168,7 +168,9 @@ CLAIMS = {
                  "accepted; the memoised directed matrix is never edited in place. "
                  "Exchange clause: in the pairwise ES and ECA kernels, swapping the "
                  "roles of the two sequences maps every statement onto a statement of "
-                 "the same branch and the first returned direction onto the second."),
+                 "the same branch and the first returned direction onto the second. "
+                 "Event positions are not narrowed below 32-bit integers (E5); the "
+                 "threshold array of make_event_matrix is floating (E6)."),
         "note": ("Does NOT decide the counting formulas themselves, ranges, shift or "
                  "rescaling invariance of the values."),
         "technique": ("registry/table agreement, undefined-attribute and option-flow rules, "
@@ -182,7 +184,7 @@ CLAIMS = {
                  "generators set one unset cell per link; the cross-block "
                  "write-back touches only [nodes1[i], nodes2[j]]; the three "
                  "geographical wrappers feed the kernel alike; node arrays keep the "
-                 "caller's order."),
+                 "caller's order. Also: rebuilding a network from an edge list passes the node count (W8); every alternative of a rewiring acceptance condition implies the conserved quantity, decided by union-find over its atoms (W9)."),
         "note": "Does NOT decide igraph generators, distributions or tolerance semantics.",
         "technique": "multiset/guard analysis of the swap block over the Cython parse tree, sibling agreement of wrappers",
     },
@@ -204,7 +206,7 @@ CLAIMS = {
                  "lemma on paper), result re-assembly vs worker result shape, "
                  "chunk-relative/absolute index discipline in the workers, "
                  "loop-carried state of the batched kernel, and repo-wide "
-                 "independence from silence_level."),
+                 "independence from silence_level. Also: a chunk-relative counter is never compared with an absolute node index in a worker."),
         "note": ("utils/mpi.py itself (scheduling, FIFO per worker, pickling) and "
                  "numpy's array_split are trusted; floating-point summation order "
                  "not considered; accepted chunk idioms are the ceil-division "
@@ -220,7 +222,7 @@ CLAIMS = {
                  "call site; every dereference in the six C functions is inside "
                  "its buffer (affine pointer analysis with induction variables over "
                  "the clang AST, polynomial bounds); data-dependent bin indices are "
-                 "clamped on both sides; integer product chains cannot overflow."),
+                 "clamped on both sides; integer product chains cannot overflow. Also: an extent taken from object state is re-established (or guarded by a shape test) whenever the size cell can be rewritten without the buffer cells."),
         "note": ("LP64; extents >= 0; numpy/igraph internals trusted; the Cython "
                  "compiler's boundscheck is trusted for typed buffers; unsupported C "
                  "constructs give ANALYSIS-ERROR."),
